@@ -241,7 +241,12 @@ func (im indexManager) searchParallel(
 	}
 	// ---------------------------
 	if len(queries) == 1 {
-		// Shortcut, no merging required
+		// Shortcut, no merging required. The results of a composite query are
+		// still ranked by hybrid score, which differs from the order of the
+		// sub-query when its weight is negative.
+		slices.SortStableFunc(results[0], func(a, b models.SearchResult) int {
+			return cmp.Compare(b.HybridScore, a.HybridScore)
+		})
 		return sets[0], results[0], nil
 	}
 	// ---------------------------
